@@ -373,6 +373,12 @@ def extra_trees(tier):
                 rep.harness_error(f"tree counterexample did not reproduce on the real back end: {b['tree'][:200]} {rp}")
             if len(samples) < 4:
                 samples.append(b)
+        fp_stats, fp_bad = run_fp_exact()
+        for b in fp_bad:
+            if b.get("unknown"):
+                rep.harness_error(f"Float64 query unknown for {b['tree'][:160]}")
+            else:
+                rep.violation({"name": "fp tree", "kind": "ieee-not-equal"}, {"property": "C07", "part": "b-float64", **b})
         st_total, st_bad = run_statements(tier, seed)
         for b in st_bad:
             rep.violation({"name": "statement", "kind": "statement-not-equivalent"},
@@ -382,7 +388,7 @@ def extra_trees(tier):
             "disagreements_checked": confirmed + len(st_bad) + coverage.get("violations_found_by_solver", 0),
             "expression_trees": {**total, "solver_s": round(total["solver_s"], 2), "per_depth": per_depth,
                                  "literals": "{0,1,2,0.0,1.0,1.5,true,false}", "variables": "x,y:int u,v:float p,q:bool ia:int[<=3] fa:double[<=3]"},
-            "statement_trees": st_total,
+            "statement_trees": st_total, "float64_exact_rules": fp_stats,
             "tree_counterexample_samples": samples,
         }
 
@@ -486,3 +492,72 @@ def confirm_kernel(rec, families):
             out["confirmed"] = True
             out["where"].append("ir-machine: outputs differ")
     return out
+
+
+# ------------------------------------------------------------------ exact IEEE check of the float rules
+
+
+def fp_meaning(e, env):
+    """IEEE-754 binary64 meaning (round-to-nearest-even) of a float-typed tree over float variables
+    and literals; None when the tree leaves that fragment."""
+    rm = z3.RNE()
+    F = z3.Float64()
+    if isinstance(e, ir.FloatLiteral):
+        return z3.FPVal(e.value, F)
+    if isinstance(e, ir.IntegerLiteral):
+        return z3.FPVal(float(e.value), F)
+    if isinstance(e, ir.Variable):
+        if trees.VAR_TYPES.get(e.name) == "float":
+            return env.setdefault(e.name, z3.FP(e.name + "_fp", F))
+        return None
+    if isinstance(e, trees.ARITH):
+        a, b = fp_meaning(e.left, env), fp_meaning(e.right, env)
+        if a is None or b is None:
+            return None
+        if isinstance(e, ir.Add):
+            return z3.fpAdd(rm, a, b)
+        if isinstance(e, ir.Subtract):
+            return z3.fpSub(rm, a, b)
+        return z3.fpMul(rm, a, b)
+    return None
+
+
+def run_fp_exact():
+    """Every depth-1 arithmetic tree over {u, v, 0.0, 1.0, 1.5, 0, 1, 2} that the peephole changes:
+    original and optimised agree as IEEE doubles (fp.eq: the sign of zero may differ) for all finite
+    inputs.  Queries are Float64 bit-precise."""
+    from tensora.ir._peephole import peephole_expression
+
+    leaves = [ir.Variable("u"), ir.Variable("v"), ir.FloatLiteral(0.0), ir.FloatLiteral(1.0), ir.FloatLiteral(1.5),
+              ir.IntegerLiteral(0), ir.IntegerLiteral(1), ir.IntegerLiteral(2)]
+    n = q = 0
+    bad = []
+    t0 = time.time()
+    for op in trees.ARITH:
+        for a in leaves:
+            for b in leaves:
+                t = op(a, b)
+                if trees.type_of(t) != "float":
+                    continue
+                t2 = peephole_expression(t)
+                if t2 == t:
+                    continue
+                n += 1
+                env = {}
+                ma, mb = fp_meaning(t, env), fp_meaning(t2, env)
+                if ma is None or mb is None:
+                    continue
+                s = z3.Solver()
+                s.set("timeout", 60000)
+                for v in env.values():
+                    s.add(z3.Not(z3.fpIsNaN(v)), z3.Not(z3.fpIsInf(v)))
+                s.add(z3.Not(z3.fpEQ(ma, mb)))
+                q += 1
+                r = s.check()
+                if r == z3.sat:
+                    m = s.model()
+                    bad.append({"tree": repr(t), "optimised": repr(t2),
+                                "env": {k: str(m.eval(v, model_completion=True)) for k, v in env.items()}})
+                elif r == z3.unknown:
+                    bad.append({"tree": repr(t), "optimised": repr(t2), "unknown": True})
+    return {"trees": n, "queries": q, "wall_s": round(time.time() - t0, 1)}, bad
